@@ -58,7 +58,7 @@ func main() {
 		fh, _ := os.Create(pf)
 		pprof.StartCPUProfile(fh)
 		defer pprof.StopCPUProfile()
-		go func() { time.Sleep(40 * time.Second); pprof.StopCPUProfile(); fh.Close(); os.Exit(3) }()
+		go func() { time.Sleep(100 * time.Second); pprof.StopCPUProfile(); fh.Close(); os.Exit(3) }()
 	}
 	thorough := r.Thorough()
 
@@ -85,6 +85,10 @@ func main() {
 	}
 	checkDistinct("dns-request", rq)
 	checkDistinct("dns-response", rp)
+	if err := selfCheckAssembly(all, d); err != nil {
+		fmt.Fprintln(os.Stderr, "C04: harness self-check failed:", err)
+		os.Exit(2)
+	}
 	full := vroute.PacketOpts{}
 	mapped := vroute.PacketOpts{MappedForms: true}
 	compact := vroute.PacketOpts{Compact: true}
@@ -137,5 +141,44 @@ func main() {
 	r.Set("distinct_nontrivial", t.nontrivial.Load()+d.pReq.nontrivial.Load()+d.pResp.nontrivial.Load()+d.pRouter.nontrivial.Load())
 	r.Counter("evaluations").Add(t.evals.Load() + d.pReq.evals.Load() + d.pResp.evals.Load() + d.pRouter.evals.Load())
 	r.Set("distinct_outcomes", len(t.outcomes.m)+len(d.pReq.outcomes.m)+len(d.pResp.outcomes.m))
+	r.Set("lists", t.lists.Load()+d.pReq.lists.Load()+d.pResp.lists.Load()+d.pRouter.lists.Load())
+	r.Set("lists_changed_by_optimizers", t.changed.Load()+d.pReq.changed.Load()+d.pResp.changed.Load()+d.pRouter.changed.Load())
+
+	// vacuity guards: every pipeline must have seen merged rules, removed values, geodata expansion, lists the
+	// optimizers left alone, and more than one expected decision (skipped when the run was cut short or failed)
+	if r.ViolationCount() == 0 && !r.OverBudget(budgetQuick, budgetThorough) {
+		type g struct {
+			name string
+			v    int64
+		}
+		for _, x := range []g{
+			{"traffic merged", t.merged.Load()}, {"traffic deduplicated", t.deduped.Load()}, {"traffic geodata", t.geo.Load()}, {"traffic reordered-only", t.reordered.Load()},
+			{"traffic unchanged", t.lists.Load() - t.changed.Load()}, {"traffic outcomes>1", int64(len(t.outcomes.m) - 1)},
+			{"dns-request merged", d.pReq.merged.Load()}, {"dns-request deduplicated", d.pReq.deduped.Load()}, {"dns-request geodata", d.pReq.geo.Load()},
+			{"dns-request unchanged", d.pReq.lists.Load() - d.pReq.changed.Load()}, {"dns-request outcomes>1", int64(len(d.pReq.outcomes.m) - 1)},
+			{"dns-response merged", d.pResp.merged.Load()}, {"dns-response deduplicated", d.pResp.deduped.Load()}, {"dns-response geodata", d.pResp.geo.Load()},
+			{"dns-response unchanged", d.pResp.lists.Load() - d.pResp.changed.Load()}, {"dns-response outcomes>1", int64(len(d.pResp.outcomes.m) - 1)},
+			{"daedns-router lists", d.pRouter.lists.Load()}, {"daedns-router merged", d.pRouter.merged.Load()},
+			{"negated mergeable neighbours (traffic)", t.negMergeable.Load()}, {"negated mergeable neighbours (dns-request)", d.pReq.negMergeable.Load()},
+			{"negated mergeable neighbours (dns-response)", d.pResp.negMergeable.Load()},
+		} {
+			if x.v <= 0 {
+				fmt.Fprintf(os.Stderr, "C04: vacuous exploration: no case of kind %q\n", x.name)
+				os.Exit(2)
+			}
+		}
+	}
+	r.Rule("Rule LISTS are all sequences (with repetition) of the stated length over closed rule alphabets built around the optimizers' triggers. " +
+		"Traffic: full alphabet = union of three families (ip/sip: 25 rules, domain: 19, port/l4proto/pname/mac/ipversion/dscp: 22; 66 rules) - single-condition rules sharing function, negation and outbound; neighbours differing in exactly one of function name (dip/sip, dip/ip alias), '!', outbound (g1/g2) or outbound parameters (mark, must_, (must)); repeated and overlapping values; alias spellings dip/ip, dport/port, domain bare/domain:/suffix:, contains:/keyword:; same value under two keys; mixed-key domain(); v4/v6 values that re-sort; '&&' rules whose conditions re-sort by name; the same value in two conditions of one rule; must_rules; geoip:/geosite:/geosite@attr/ext: references alone, negated and mixed with ordinary values. " +
+		"quick: every list of length 1 and 2 over the full alphabet, every list of length 3 over each family core (16/12/12 rules) and over a 13-rule cross-family alphabet; thorough: length 1-2 over the full alphabet (IPv4 packets also in IPv4-mapped form), length 3 over each complete family and the cross-family alphabet, length 4 over the cores and the cross-family alphabet. " +
+		"DNS: request alphabet 25 rules (qname full/suffix/keyword/regex/geosite/ext, qtype by name and number, negated, multi-key, '&&'), response alphabet 26 rules (ip CIDR sets incl. v6-first, overlaps, geoip/ext; upstream; qname; qtype; '&&'); quick: length 1-2 over the full alphabets, length 3 over the cores (15/14); thorough: length 1-3 over the full alphabets, length 4 over the cores; the daedns router sees every request list of length<=3. " +
+		"Inputs: traffic - vroute.PacketsFor on the list as written with geodata references replaced by the listed values (full boundary product for length<=2, compact product = one inside + one outside neighbour per constant for length>=3); DNS request - 17 names (hits, misses, mixed case, trailing dot, root) x qtypes {A, AAAA, HTTPS}; DNS response - 4 questions x every answer section of <=2 records from a pool of 6 addresses x 3 answering upstreams. " +
+		"A case is (pipeline, list, input); lists are pairwise distinct (alphabets checked duplicate-free, spaces differ in length or are de-duplicated by text hash: traffic_duplicate_lists_skipped). A list is NON-TRIVIAL when the rules actually lowered differ from the written rules by more than alias renaming (merged rules, removed values, re-sorted values or conditions, expanded geodata); distinct_nontrivial counts the cases on such lists.")
+	r.Assume("traffic pipeline: the optimizer chain is read from the source of the tree under test (control/control_plane.go, arguments of routing.NewNormalizedProgram) and applied in that order through routing.NewNormalizedProgram -> NewRoutingMatcherBuilderFromProgram -> BuildUserspace -> ControlPlane.Route (real-mode build of package control); NewControlPlane itself is not executed")
+	r.Assume("DNS pipelines go through the real dns.New (RequestSelect/ResponseSelect) and daedns.NewWithOption (selectUpstream); upstreams are IP literals, no network")
+	r.Assume("geodata: geosite.dat/geoip.dat/c04site.dat/c04ip.dat are generated by the harness (protobuf through pkg/geodata types, three entries per file, the wanted one in the middle) into $VERIF_WORKDIR/c04-assets and found through assets.LocationFinder; the meaning of geosite:tiny / geoip:tiny / ext:'file:tiny' is the list of values the harness wrote (RootDomain=suffix, Full=full, Plain=keyword, Regex=regex; @attr filters by attribute, case-insensitively)")
+	r.Assume("lists of length 1 go through the complete configuration text and the production match-set length 1024; longer lists are assembled from the once-parsed rules (checked equal to parsing the text for every symbol) and run with consts.MaxMatchSetLen=64 (build-time knob)")
+	r.Assume("second leg (matcher built from the same list with AliasOptimizer only / no optimizer) is evaluated whenever the production chain changed the list or the list has geodata; for an unchanged list both matchers would be built from the identical rule list")
+	r.Assume("internal dae DNS selectors (sub/node/subnode), which pass through the same optimizers, are not part of the alphabets")
 	r.Finish()
 }
